@@ -3965,3 +3965,40 @@ def walk_once(r: R, chk, quals: List[str], rule="WALK-ONCE", floor: int = 1):
                    func=q, construct=f"{p} walked twice")
     chk.floor(rule, "sequence parameters of the knot-vector editing functions examined", n, floor)
     return n
+
+
+# ---------------------------------------------------------------------------------------------------------
+# TUPLE-MUTATE: no list-only method is called on a value that is a tuple on every path
+LIST_ONLY = ("pop", "append", "extend", "insert", "remove", "sort", "reverse", "clear")
+_TUPLE_MUTATE_CONTROL = None  # the control is the type domain itself: a local assigned tuple(...) must come out as {"tuple"}
+
+
+def tuple_mutate(r: R, chk, entries: List[str], rule="TUPLE-MUTATE"):
+    """`x = tuple(...)` ... `x.pop(i)` raises AttributeError — on the one path where it is reached (here: a sampled value of the
+    weight function that is exactly 0), so the refusal that was meant (ValueError: the weight function has a zero) never happens.
+    In every function reachable from the entries, a call of a list-only method has a receiver that may be something else than a tuple."""
+    from .divisions import reachable_functions
+
+    n = seen_tuple = 0
+    for q in reachable_functions(r, entries):
+        ctx = r.A.roots.get(q)
+        if ctx is None:
+            continue
+        for c in ast.walk(ctx.fi.node):
+            if isinstance(c, ast.Assign) and isinstance(c.value, ast.Call) and seg(c.value.func) == "tuple" and len(c.targets) == 1 and isinstance(c.targets[0], ast.Name):
+                v0 = ctx.val(c.value)
+                if v0 is not None and v0.ty == {"tuple"}:
+                    seen_tuple += 1
+            if not (isinstance(c, ast.Call) and isinstance(c.func, ast.Attribute) and c.func.attr in LIST_ONLY):
+                continue
+            v = ctx.val(c.func.value)
+            if v is None or not v.ty:
+                continue
+            n += 1
+            bad = v.ty <= {"tuple"}
+            chk.ob(rule, f"{q}: `{seg(c, 40)}` is not called on a tuple", not bad, loc=r.loc(ctx, c),
+                   detail="" if not bad else f"{q}: `{seg(c, 40)}` is called on `{seg(c.func.value, 30)}`, which is a tuple on every path: AttributeError instead of the intended handling — a weight function with a sampled value of exactly 0 (weights (0, 1), (1, 0, 0, 1)) is refused with AttributeError, not with the ValueError that a zero of the weight function must give",
+                   func=q, construct=f"list method {c.func.attr} on a tuple")
+    chk.floor(rule, "list-only method calls with a typed receiver on the path", n, 3)
+    chk.floor(rule, "positive control: `tuple(...)` values typed as tuple by the engine", seen_tuple, 1)
+    return n
